@@ -83,156 +83,179 @@ def run(check: Check) -> None:
     check.exhaustive_parts += ["sibling normal forms of the three maxima defuzzifiers"]
 
 
-RED_NAMES = {"nanmin", "min", "amin", "nanmean", "mean", "nanmax", "max", "amax", "nanmedian", "median", "sum", "nansum"}
+NAN = ("global", "numpy.nan")
+AXIS1 = ("const", 1)
 
 
-def _reducers_over_points(ret: Term, x: Term, y: Term) -> list[tuple[Term, Term, str]]:
-    """Reduction calls whose argument is built from the sample points x other than through the memberships y: (call, argument, name)."""
-    out = []
-    for s_ in walk(ret):
-        if s_[0] != "call":
-            continue
-        if s_[1][0] == "global" and s_[1][1].startswith("numpy.") and s_[1][1].split(".")[-1] in RED_NAMES and s_[2]:
-            arg, name = s_[2][0], s_[1][1]
-        elif s_[1][0] == "attr" and s_[1][2] in RED_NAMES:
-            arg, name = s_[1][1], "ndarray." + s_[1][2]
-        else:
-            continue
-        if any(q == x for q in walk(_replace(arg, y, ("param", "<y>")))):
-            out.append((s_, arg, name))
-    return out
+def _subterms(t):
+    """Every canonical sub-term, looking inside rational normal forms as well."""
+    from ..npcanon import _RatTerm
+
+    if isinstance(t, _RatTerm):
+        yield t
+        for s_ in t[2].symbols():
+            yield from _subterms(s_)
+        return
+    if isinstance(t, tuple):
+        if t and isinstance(t[0], str):
+            yield t
+        for x_ in t:
+            yield from _subterms(x_)
+
+
+def _replace(t, old, new):
+    if t == old:
+        return new
+    if isinstance(t, tuple) and not (len(t) == 3 and t[0] == "rat"):
+        return tuple(_replace(x, old, new) for x in t)
+    return t
+
+
+def _truth(c, val) -> bool | None:
+    """A canonical mask under an assignment of its atoms (None: an atom the assignment does not know)."""
+    if c[0] == "not":
+        v = _truth(c[1], val)
+        return None if v is None else not v
+    if c[0] in ("and", "or"):
+        vs = [_truth(x, val) for x in c[1]]
+        if c[0] == "and":
+            return False if any(v is False for v in vs) else (None if any(v is None for v in vs) else True)
+        return True if any(v is True for v in vs) else (None if any(v is None for v in vs) else False)
+    if c[0] == "const" and isinstance(c[1], bool):
+        return c[1]
+    return val(c)
 
 
 def maxima(check: Check, infos: dict) -> None:
-    from ..absint import FINITE, NAN, Abs, Evaluator, show_abs
+    """R1, R2, S2 on canonical forms (sa/npcanon.py): the three maxima defuzzifiers reduce `where(mask, x, nan)` along the sampling axis with
+    nanmin / nanmean / nanmax; the mask, as a Boolean function of its atoms, is `membership positive and equal to the row maximum`; and the
+    three computations are the same up to the reducer."""
+    from ..npcanon import canon, show_canon
 
     forms = {}
     holes = {}
     for cname, kind in (("SmallestOfMaximum", "min"), ("MeanOfMaximum", "mean"), ("LargestOfMaximum", "max")):
         fn, r, cfg, ret, x, y = infos[cname]
-        # the outermost reducer applied to the selected sample points
-        cands = _reducers_over_points(ret, x, y)
-        cands = [c for c in cands if not any(c[0] is not d[0] and any(q == c[0] for q in walk(d[1])) for d in cands)]
+        c, cx, cy = canon(ret), canon(x), canon(y)
+        # reductions over something built from the sample points other than through the memberships
+        cands = [s_ for s_ in _subterms(c) if s_[0] == "reduce" and any(q == cx for q in _subterms(_replace(s_[2], cy, ("param", "<y>"))))]
+        cands = [s_ for s_ in cands if not any(s_ is not d and any(q == s_ for q in _subterms(d[2])) for d in cands)]
         if len(cands) != 1:
-            check.violation("R1", f"{cname}.defuzzify/reducer", f"expected one {kind} reduction over the selected sample points, found "
-                            f"{[c[2] for c in cands]}", loc(fn))
-            forms[cname] = normalize(ret)
-            holes[cname] = "?"
+            check.violation("R1", f"{cname}.defuzzify/reducer", f"expected one {kind} reduction over the selected sample points, found {[s_[1] for s_ in cands]}", loc(fn))
+            forms[cname], holes[cname] = c, "?"
             continue
-        red, arg, rname = cands[0]
-        holes[cname] = rname
-        forms[cname] = normalize(_replace(ret, red, ("call", HOLE, (arg,) + tuple(red[2][1:] if red[1][0] == "global" else red[2]), red[3])))
-        ok = rname in REDUCERS[kind]
-        check.require(ok, "R1", f"{cname}.defuzzify/reducer", f"{cname} reduces the selected points with {rname}" + ("" if ok else
+        red = cands[0]
+        rname, arg = red[1], red[2]
+        holes[cname] = "numpy." + rname
+        forms[cname] = _replace(c, red, ("reduce", "<reducer>") + red[2:])
+        ok = "numpy." + rname in REDUCERS[kind]
+        check.require(ok, "R1", f"{cname}.defuzzify/reducer", f"{cname} reduces the selected points with numpy.{rname}" + ("" if ok else
                       f", expected a {kind} reducer that ignores the points that are not selected ({sorted(REDUCERS[kind])})"), loc(fn))
-        # R2: what a sample point contributes to the reduction, by abstract interpretation over the two selection conditions:
-        # the point itself when its membership is positive and equals the per-set maximum, NaN (ignored) otherwise
-        ymax = ("call", ("attr", y, "max"), (), (("axis", ("const", 1)), ("keepdims", ("const", True))))
-        pos_forms = {normalize(("cmp", (">",), (y, ("const", 0)))), normalize(("cmp", ("<",), (("const", 0), y))),
-                     normalize(("cmp", (">",), (y, ("const", 0.0)))), normalize(("cmp", ("<",), (("const", 0.0), y)))}
-        eq_form = normalize(("cmp", ("==",), (y, ymax)))
-        seen_atoms = set()
-        rows = {}
-        for pos_v in (True, False):
-            for eq_v in (True, False):
-                def env(t: Term, pos_v=pos_v, eq_v=eq_v):
-                    if t == x:
-                        return Abs(FINITE)
-                    nt = normalize(t)
-                    if nt in pos_forms:
-                        seen_atoms.add("positive")
-                        return frozenset({pos_v})
-                    if nt == eq_form:
-                        seen_atoms.add("maximal")
-                        return frozenset({eq_v})
-                    if t == y:
-                        return Abs(FINITE)
-                    return None
-                try:
-                    rows[(pos_v, eq_v)] = Evaluator(check.program, env).ev(arg)
-                except AnalysisError as ex:
-                    rows[(pos_v, eq_v)] = str(ex)
-        want = {(True, True): Abs(FINITE), (True, False): Abs({NAN}), (False, True): Abs({NAN}), (False, False): Abs({NAN})}
-        bad = {k: v for k, v in rows.items() if v != want[k]}
+        # R2: what a sample point contributes to the reduction, for the four truth assignments of the two conditions
+        pos = canon(("cmp", (">",), (y, ("const", 0))))
+        ymax = ("reduce", "max", cy, AXIS1, ())
+        eqs = {canon_eq(cy, ymax), canon_eq(cy, ("reduce", "nanmax", cy, AXIS1, ()))}
         names = {(True, True): "positive and maximal", (True, False): "positive, below the maximum", (False, True): "zero and maximal (empty set)",
                  (False, False): "zero, below the maximum"}
-        m_ok = not bad and seen_atoms == {"positive", "maximal"}
-        check.require(m_ok, "R2", f"{cname}.defuzzify/mask",
+        problems: list[str] = []
+        seen: set[str] = set()
+        if arg[0] != "where":
+            problems.append(f"the reduced array is `{show_canon(arg)[:100]}`, not a selection `where(mask, x, nan)`")
+        else:
+            for pos_v in (True, False):
+                for eq_v in (True, False):
+                    def val(a, pos_v=pos_v, eq_v=eq_v):
+                        if a == pos:
+                            seen.add("positive")
+                            return pos_v
+                        if a in eqs:
+                            seen.add("maximal")
+                            return eq_v
+                        return None
+                    tv = _truth(arg[1], val)
+                    got = None if tv is None else (arg[2] if tv else arg[3])
+                    want = cx if (pos_v and eq_v) else NAN
+                    if got != want:
+                        problems.append(f"{names[(pos_v, eq_v)]} -> " + ("depends on something else" if got is None else f"`{show_canon(got)[:60]}`")
+                                        + f" (specified {'the point itself' if want == cx else 'nan'})")
+            if not problems and seen != {"positive", "maximal"}:
+                problems.append(f"conditions found: {sorted(seen)}")
+        check.require(not problems, "R2", f"{cname}.defuzzify/mask",
                       "a sample point enters the reduction iff its membership is positive and equals the per-set maximum; all other points are NaN (ignored)"
-                      if m_ok else "what a sample point contributes to the reduction: " + "; ".join(
-                          f"{names[k]} -> {show_abs(v) if not isinstance(v, str) else v} (specified {show_abs(want[k])})" for k, v in bad.items())
-                      + ("" if seen_atoms == {"positive", "maximal"} else f"; conditions found: {sorted(seen_atoms)}"), loc(fn),
-                      exhaustive=True, cases=4)
-    a, b, c = forms["SmallestOfMaximum"], forms["MeanOfMaximum"], forms["LargestOfMaximum"]
-    same = a == b == c
+                      if not problems else "what a sample point contributes to the reduction: " + "; ".join(problems[:4]), loc(fn), exhaustive=True, cases=4)
+    a, b, c3 = forms["SmallestOfMaximum"], forms["MeanOfMaximum"], forms["LargestOfMaximum"]
+    same = a == b == c3
     diff = ""
     if not same:
         for n1, n2 in (("SmallestOfMaximum", "MeanOfMaximum"), ("MeanOfMaximum", "LargestOfMaximum")):
             if forms[n1] != forms[n2]:
-                diff = f"{n1}: {show(forms[n1])[:160]} vs {n2}: {show(forms[n2])[:160]}"
+                diff = f"{n1}: {show_canon(forms[n1])[:160]} vs {n2}: {show_canon(forms[n2])[:160]}"
                 break
     check.require(same, "S2", "SmallestOfMaximum~MeanOfMaximum~LargestOfMaximum", "the three maxima defuzzifiers are the same computation up to the reducer "
                   f"({holes})" if same else f"the maxima defuzzifiers differ beyond the reducer: {diff}", loc(infos["MeanOfMaximum"][0]),
                   exhaustive=True, cases=3)
 
 
-def normalize(t):
-    """Sort the operands of commutative operators so that syntactic order does not matter."""
-    if isinstance(t, tuple) and t and isinstance(t[0], str):
-        t = tuple(normalize(x) for x in t)
-        if t[0] == "binop" and t[1] in ("&", "|", "+", "*"):
-            a, b = sorted([t[2], t[3]], key=repr)
-            return ("binop", t[1], a, b)
-        if t[0] == "cmp" and t[1] in (("==",), ("!=",)):
-            return ("cmp", t[1], tuple(sorted(t[2], key=repr)))
-        return t
-    if isinstance(t, tuple):
-        return tuple(normalize(x) for x in t)
-    if isinstance(t, frozenset):
-        return frozenset(normalize(x) for x in t)
-    return t
+def canon_eq(a, b):
+    from ..npcanon import _compare
 
-
-def _replace(t, old, new):
-    if t == old:
-        return new
-    if isinstance(t, tuple):
-        return tuple(_replace(x, old, new) for x in t)
-    if isinstance(t, frozenset):
-        return frozenset(_replace(x, old, new) for x in t)
-    return t
+    return _compare("==", a, b)
 
 
 def centroid(check: Check, info) -> None:
+    """S5: the canonical form of what Centroid returns is sum(x * y, axis 1) / sum(y, axis 1) (rational normal forms over the two reductions)."""
+    from ..npcanon import canon, show_canon
+
     fn, r, cfg, ret, x, y = info
-    core = strip(ret)
-    axis1 = (("axis", ("const", 1)),)
-    num1 = ("call", ("attr", ("binop", "*", x, y), "sum"), (), axis1)
-    num2 = ("call", ("attr", ("binop", "*", y, x), "sum"), (), axis1)
-    den = ("call", ("attr", y, "sum"), (), axis1)
-    ok = core[0] == "binop" and core[1] == "/" and core[2] in (num1, num2) and core[3] == den
-    check.require(ok, "S5", "Centroid.defuzzify/formula", "centroid = sum(x*y) / sum(y) per set" if ok else f"centroid is {show(core)[:200]}", loc(fn))
+    axis1 = (("axis", AXIS1),)
+    want = canon(("binop", "/", ("call", ("global", "numpy.sum"), (("binop", "*", x, y),), axis1), ("call", ("global", "numpy.sum"), (y,), axis1)))
+    got = canon(ret)
+    ok = got == want
+    check.require(ok, "S5", "Centroid.defuzzify/formula", "centroid = sum(x*y) / sum(y) per set (canonical forms equal)" if ok else f"centroid is {show_canon(got)[:200]}", loc(fn))
 
 
 def bisector(check: Check, info) -> None:
-    fn, r, cfg, ret, x, y = info
-    names = [s[1][1] for s in walk(ret) if s[0] == "call" and s[1][0] == "global"]
-    has_cum = any(n in ("numpy.nancumsum", "numpy.cumsum") for n in names)
-    half = any(s[0] == "binop" and s[1] == "-" and s[3] == ("const", 0.5) for s in walk(ret))
-    last = any(s[0] == "sub" and any(const_value(q) == -1 for q in walk(s[2]) if q[0] in ("const", "unop")) for s in walk(ret))
-    argmin = any(s[0] == "cmp" and s[1] == ("==",) and any(q[0] == "call" and q[1][0] == "attr" and q[1][2] == "min" for q in s[2]) for s in walk(ret))
-    mean = any(n in ("numpy.nanmean", "numpy.mean") for n in names) and any(s[0] == "call" and s[1] == ("global", "numpy.where") and s[2][1] == x for s in walk(ret))
-    # the deviation from one half is minimised as a distance: |c - 1/2| (or its square), not the signed difference
-    def is_half(t_: Term) -> bool:
-        return t_[0] == "binop" and t_[1] == "-" and t_[3] == ("const", 0.5)
+    """S5: the canonical form of what Bisector returns, matched level by level:
+    nanmean over axis 1 of where(D == min(D, axis 1), x, nan) with D = |c / c[:, -1] - 1/2| (or its square, or a constant multiple), c = (nan)cumsum(y, axis 1)."""
+    from ..algebra import Rat
+    from ..npcanon import _rat_of, canon, show_canon
 
-    dist = any((s[0] == "call" and s[1][0] == "global" and s[1][1] in ("numpy.abs", "numpy.absolute", "numpy.fabs", "abs", "numpy.square") and s[2] and is_half(strip(s[2][0])))
-               or (s[0] == "binop" and s[1] == "**" and s[3] == ("const", 2) and is_half(strip(s[2]))) for s in walk(ret))
-    half = half and dist
-    ok = has_cum and half and last and argmin and mean
-    check.require(ok, "S5", "Bisector.defuzzify/formula",
-                  "bisector = mean of the sample points whose normalised cumulative membership is closest to one half" if ok else
-                  f"cumulative sum={has_cum}, distance |c - 1/2|={half}, normalised by the last column={last}, closest={argmin}, mean of tied points={mean}", loc(fn))
+    fn, r, cfg, ret, x, y = info
+    got, cx, cy = canon(ret), canon(x), canon(y)
+    why = ""
+    top = got
+    if not (top[0] == "reduce" and top[1] == "nanmean" and top[3] == AXIS1):
+        why = f"the result is `{show_canon(top)[:80]}`, not the mean (ignoring the points that are not selected) along the sampling axis"
+    else:
+        w = top[2]
+        if not (w[0] == "where" and w[2] == cx and w[3] == NAN):
+            why = f"the mean is taken over `{show_canon(w)[:80]}`, not over where(closest, x, nan)"
+        else:
+            m = w[1]
+            d = None
+            if m[0] == "cmp" and m[1] == "==":
+                for a, b in ((m[2], m[3]), (m[3], m[2])):
+                    if b[0] == "reduce" and b[1] in ("min", "nanmin") and b[2] == a and b[3] == AXIS1:
+                        d = a
+            if d is None:
+                why = f"the selected points are those where `{show_canon(m)[:100]}`, not those whose distance equals the smallest distance of the row"
+            else:
+                cums = [("reduce", n_, cy, AXIS1, ()) for n_ in ("nancumsum", "cumsum")]
+                wants = [_rat_of(cu) / _rat_of(("lastcol", cu)) - Rat.const("1/2") for cu in cums]
+                consts = [Rat.const(k) for k in ("1", "-1", "2", "-2", "1/2", "-1/2")]
+                if d[0] == "call" and d[1] == ("global", "numpy.abs") and len(d[2]) == 1:
+                    e = _rat_of(d[2][0])
+                    ok = any(e.equals(w_ * k) for w_ in wants for k in consts)
+                elif d[0] == "rat":
+                    ok = any(d[2].equals((w_ * k).pow(2)) for w_ in wants for k in consts)
+                else:
+                    ok = False
+                if not ok:
+                    why = (f"the quantity minimised is `{show_canon(d)[:120]}`, not the distance |c / c[:, -1] - 1/2| of the normalised cumulative membership "
+                           "c = cumsum(y, axis=1) from one half")
+    check.require(not why, "S5", "Bisector.defuzzify/formula",
+                  "bisector = mean of the sample points whose normalised cumulative membership is closest to one half (canonical form matched level by level)"
+                  if not why else why, loc(fn))
 
 
 def _index_vector(t: Term, res: Term) -> str | None:
